@@ -12,8 +12,8 @@ META = {
             'no vulnerability fixed by a chosen patch is marked unactionable; ConstructPatches reports exactly old∖new and new∖old, hence new = old − fixed + introduced; its update list is the '
             'requirement diff keyed by manifest ENTRY (name + npm alias / Maven type), one update per changed entry; substituting '
             'the reported requirement updates into the old requirements gives the patched requirements; the pipeline model has Write (with failure), Read, resolve+match as one '
-            'deterministic function of the requirements, and the options\' ExplicitVulns handling (ignore list computed from the ORIGINAL graph only): for runs without ExplicitVulns and a '
-            'correct writer the fresh analysis of the RE-READ file is the original minus the reported fixed plus the reported introduced (C12_roundtrip_partial); WriterCorrect is discharged '
+            'deterministic function of the requirements, and the options\' ExplicitVulns handling (ignore list computed from the ORIGINAL graph only): the report (fixed, introduced) is COMPUTED by the model of ConstructPatches from the run\'s two analyses, and for a '
+            'correct writer the fresh analysis of the RE-READ file is the original minus that fixed plus that introduced (C12_roundtrip_partial; for the patches choosePatches picks: C12_chosen_patch_is_real_partial), under the weakest condition on ExplicitVulns (no vulnerability outside the list enters with the patch); WriterCorrect is discharged '
             'for package.json by C13\'s theorem (C12_npm_writer_correct), holds for pom.xml on the literal fragment only and fails in the recorded C13 pom classes; with an ExplicitVulns list '
             'the equation is false for the unchanged code (C12_explicit_vulns_witness = known finding). No patch implies unchanged requirements. The end-to-end stream runs the real FixVulns on generated '
             'npm/relax and Maven/override universes and lets the Lean specification judge: original − fixed + introduced = second analysis (single patch), the re-read manifest entries = the '
@@ -27,7 +27,8 @@ THEOREMS = [P + 'C12_choose_sublist', P + 'C12_unactionable', P + 'C12_patch_is_
             P + 'C12_update_per_entry_partial', P + 'C12_alias_pair_witness', P + 'C12_updates_substitute_partial',
             P + 'C12_roundtrip_partial', P + 'C12_chosen_patch_is_real_partial', P + 'C12_no_patch_no_change_partial',
             P + 'C12_explicit_vulns_witness', P + 'C12_duplicate_witness',
-            'Scalibr.Npm.C12_npm_writer_correct', 'Scalibr.Npm.C12_npm_roundtrip_partial']
+            'Scalibr.Npm.C12_npm_writer_correct', 'Scalibr.Npm.C12_npm_real_fix_partial',
+            'Scalibr.Pom.C12_pom_writer_correct_partial', 'Scalibr.Pom.C12_pom_real_fix_partial']
 
 
 def build_noshim(log):
